@@ -388,6 +388,11 @@ void Circuit::safe_insert(size_t index, const Circuit &circuit) {
     if (index > operations.size()) {
         throw std::invalid_argument("index > operations.size()");
     }
+    if (&circuit == this) {
+        Circuit copy = circuit;
+        safe_insert(index, copy);
+        return;
+    }
 
     operations.insert(operations.begin() + index, circuit.operations.begin(), circuit.operations.end());
 
